@@ -28,6 +28,23 @@ type Cfg struct {
 	Grow int  `json:"grow"`
 	Min  bool `json:"min"`
 	Ctx  bool `json:"ctx,omitempty"` // an (undone) context is attached
+	Pkg  bool `json:"pkg,omitempty"` // the third way of configuring: the package variables lua.CallStackSize / lua.RegistrySize /
+	// lua.RegistryGrowStep are set to CSS / Reg / Grow and the state is made by lua.NewState() without arguments
+}
+
+// newState makes a state the way the configuration says; restore puts the process-global package
+// variables back (no-op for the Options way).
+func (c Cfg) newState() (L *lua.LState, restore func()) {
+	if !c.Pkg {
+		return lua.NewState(c.opts()), func() {}
+	}
+	css, reg, grow := lua.CallStackSize, lua.RegistrySize, lua.RegistryGrowStep
+	lua.CallStackSize, lua.RegistrySize = c.CSS, c.Reg
+	if c.Grow > 0 {
+		lua.RegistryGrowStep = c.Grow
+	}
+	restore = func() { lua.CallStackSize, lua.RegistrySize, lua.RegistryGrowStep = css, reg, grow }
+	return lua.NewState(), restore
 }
 
 func (c Cfg) opts() lua.Options {
@@ -41,6 +58,11 @@ func optCoq(css, reg, max, grow int, min bool) string {
 
 // normalised returns what NewState makes of the configuration (read back from L.Options).
 func (c Cfg) normalised() Cfg {
+	if c.Pkg {
+		// what the configuration MEANS (README: the package variables are the defaults of NewState()):
+		// a fixed call stack of CSS frames and a fixed registry of Reg cells; not read back from the code
+		return Cfg{CSS: c.CSS, Reg: c.Reg, Ctx: c.Ctx, Pkg: true}
+	}
 	L := lua.NewState(func() lua.Options { o := c.opts(); o.SkipOpenLibs = true; return o }())
 	defer L.Close()
 	o := L.Options
@@ -57,6 +79,18 @@ type OptsIn struct {
 }
 
 func runOpts(w *lib.Writer, in OptsIn) {
+	if in.Cfg.Pkg {
+		// the state made by NewState() must carry the package variables' values
+		L, restore := in.Cfg.newState()
+		o := L.Options
+		L.Close()
+		restore()
+		got := Cfg{CSS: o.CallStackSize, Reg: o.RegistrySize, Max: o.RegistryMaxSize, Grow: o.RegistryGrowStep, Min: o.MinimizeStackMemory, Pkg: true}
+		given := Cfg{CSS: in.Cfg.CSS, Reg: in.Cfg.Reg}
+		w.Add(lib.Case{Input: in, Observed: got, Class: "opts/pkgvars", Nontrivial: in.Cfg.CSS != 256 || in.Cfg.Reg != 5120,
+			Coq: fmt.Sprintf("COpts %s %s", given.coq(), got.coq())})
+		return
+	}
 	n := in.Cfg.normalised()
 	w.Add(lib.Case{Input: in, Observed: n, Class: "opts",
 		Nontrivial: n != in.Cfg,
@@ -65,6 +99,10 @@ func runOpts(w *lib.Writer, in OptsIn) {
 
 func genOpts(r *lib.Rand) OptsIn {
 	pick := func(vs ...int) int { return vs[r.Intn(len(vs))] }
+	if r.Chance(25) {
+		// package variables + NewState(): values NewState(Options{...}) would keep as they are
+		return OptsIn{Kind: "opts", Cfg: Cfg{Pkg: true, CSS: pick(1, 2, 7, 8, 9, 16, 17, 30, 255, 256, 257, 1000), Reg: pick(128, 129, 200, 1000, 5119, 5120, 5121, 8192), Grow: pick(0, 1, 32)}}
+	}
 	return OptsIn{Kind: "opts", Cfg: Cfg{
 		CSS:  pick(-1, 0, 1, 2, 7, 8, 9, 16, 17, 256, 1000),
 		Reg:  pick(-5, 0, 1, 127, 128, 129, 256, 5120, 10000),
@@ -132,7 +170,8 @@ return f(20, 22), select('#', unpack(t)), ok, co(1), co(5)
 
 // runJob executes one job in this process.
 func runJob(j Job) (out JobOut) {
-	L := lua.NewState(j.Cfg.opts())
+	L, restore := j.Cfg.newState()
+	defer restore()
 	defer L.Close()
 	if j.Cfg.Ctx {
 		ctx, cancel := context.WithCancel(context.Background())
@@ -371,6 +410,12 @@ func matrix(ctxToo bool) []Cfg {
 					}
 				}
 			}
+		}
+	}
+	// the third way of configuring: package variables + NewState()
+	for _, css := range []int{7, 9, 16, 300} {
+		for _, reg := range []int{128, 5120, 6000} {
+			cs = append(cs, Cfg{CSS: css, Reg: reg, Pkg: true})
 		}
 	}
 	return cs
@@ -830,6 +875,10 @@ func limitCfgs(kind, tier string) []Cfg {
 				cs = append(cs, Cfg{CSS: css, Reg: 5120, Max: 0, Grow: 32, Min: min})
 			}
 		}
+		// package variables + NewState(): limits below and above the built-in defaults
+		for _, css := range []int{7, 16, 30, 300, 700} {
+			cs = append(cs, Cfg{CSS: css, Reg: 20000, Pkg: true})
+		}
 		return append(cs, Cfg{CSS: 30, Reg: 128, Max: 131072, Grow: 1, Min: true}, Cfg{CSS: 64, Reg: 128, Max: 131072, Grow: 32, Min: true, Ctx: true})
 	}
 	for _, reg := range []int{128, 5120} {
@@ -839,6 +888,9 @@ func limitCfgs(kind, tier string) []Cfg {
 	}
 	cs = append(cs, Cfg{CSS: 2000, Reg: 128, Max: 8192, Grow: 32, Min: false}, Cfg{CSS: 2000, Reg: 5120, Max: 8192, Grow: 1, Min: true},
 		Cfg{CSS: 2000, Reg: 200, Max: 300, Grow: 25, Min: false}, Cfg{CSS: 2000, Reg: 129, Max: 129, Grow: 7, Min: true}, Cfg{CSS: 2000, Reg: 128, Max: 1000, Grow: 1, Min: false})
+	for _, reg := range []int{128, 200, 1000, 6000, 8192} {
+		cs = append(cs, Cfg{CSS: 2000, Reg: reg, Pkg: true}) // package variables + NewState()
+	}
 	if tier == "thorough" {
 		// growing to 131072 cells is slow (every resize copies the live prefix): thorough tier only, step 32; step 1 up to 16384
 		cs = append(cs, Cfg{CSS: 2000, Reg: 128, Max: 131072, Grow: 32, Min: true}, Cfg{CSS: 2000, Reg: 5120, Max: 131072, Grow: 32, Min: false}, Cfg{CSS: 2000, Reg: 5120, Max: 16384, Grow: 1, Min: false})
